@@ -106,7 +106,7 @@ def parse_errors(stderr, gen_path):
     return errs
 
 
-def run_unit(unit, rlimit=30, only_fn=None):
+def run_unit(unit, rlimit=30, only_fn=None, smt_seed=None):
     r = UnitResult(unit)
     src = os.path.join(ROOT, "contracts", unit + ".vrs")
     try:
@@ -135,6 +135,8 @@ def run_unit(unit, rlimit=30, only_fn=None):
     cmd = VERUS + [gen, "--output-json", "--time-expanded", "--multiple-errors", "20", "--rlimit", str(rlimit)]
     if only_fn:
         cmd += ["--verify-root", "--verify-function", only_fn]
+    if smt_seed is not None:
+        cmd += ["--smt-option", f"smt.random_seed={smt_seed}", "--smt-option", f"sat.random_seed={smt_seed}"]
     r.cmd = " ".join(cmd)
     t0 = time.time()
     p = sh(cmd, cwd=BUILD)
@@ -287,6 +289,16 @@ def main():
                 results[i] = r2
             else:
                 results[i] = r2 if r2.status == "failed" else r
+    # thorough: proof stability - every unit again under other SMT seeds (informational: recorded, never an alarm)
+    stability = {}
+    if tier == "thorough" and all(r.status == "ok" for r in results):
+        seeds = [seed * 7 + k + 1 for k in range(3)]
+        for u in units:
+            ok = 0
+            for sd in seeds:
+                r2 = run_unit(u, smt_seed=sd)
+                ok += 1 if r2.status == "ok" else 0
+            stability[u] = f"{ok}/{len(seeds)} extra SMT seeds verified"
     undecided = [r for r in results if r.status == "undecided"]
     violations = []  # (obligation, error)
     unresolved = []
@@ -412,6 +424,7 @@ def main():
                                "functions_verified": sum(1 for n, d in r.functions.items() if d["success"]),
                                "canaries_rejected": sum(1 for f in (r.meta or {}).get("functions", []) if f.get("canary") and not r.functions.get(f["canary"], {}).get("success", True)),
                                "flaky_obligations": r.flaky} for r in results},
+            "proof_stability": stability,
             "bounded_checks": rac_info.get("bounded", []),
             "bounded_checks_cmd": rac_info.get("cmd"),
             "bounded_checks_note": "bounded runtime checks of the same contracts on the real compiled crates (rac): leaf contracts Verus assumes, API-level cross-checks, witness search; labelled bounded, never counted as discharged",
